@@ -36,12 +36,25 @@ def make_sim(trace, mode, hz=True, dc=None, ic=None, prog=None):
     from architecture_simulator.simulation.riscv_simulation import RiscvSimulation
 
     try:
-        sim = RiscvSimulation(
-            mode=mode,
-            detect_data_hazards=hz,
-            data_cache=_cache_options(dc),
-            instruction_cache=_cache_options(ic),
-        )
+        if trace["cfg"].get("via_state"):
+            # the other documented way to get a simulation (the repository's own tests use it): the architectural
+            # state is built first and handed over; the simulation's remaining arguments keep their defaults
+            from architecture_simulator.uarch.riscv.riscv_architectural_state import RiscvArchitecturalState
+
+            state = RiscvArchitecturalState(
+                pipeline_mode=mode,
+                detect_data_hazards=hz,
+                data_cache_options=_cache_options(dc),
+                instruction_cache_options=_cache_options(ic),
+            )
+            sim = RiscvSimulation(state=state, mode=mode)
+        else:
+            sim = RiscvSimulation(
+                mode=mode,
+                detect_data_hazards=hz,
+                data_cache=_cache_options(dc),
+                instruction_cache=_cache_options(ic),
+            )
     except Exception as e:  # noqa: BLE001
         raise SutConstructionError(f"{type(e).__name__}: {e} (mode={mode}, dc={dc}, ic={ic})") from e
     if trace["cfg"].get("probe_before_load"):
